@@ -725,8 +725,8 @@ def run_generated(task, tier, seed, col):
     from ..gen import regmodel
 
     strat = st.builds(lambda m, nit, ar, pa: {"model": m, "nit": nit, "autoreduce": ar, "path": pa}, regmodel.models(with_offset=False), st.sampled_from(["float", "Fraction", "Decimal"]), st.booleans(),
-                      st.sampled_from(["lines", "file", "import", "cache", "cache_lines", "cache_import"]))
-    hyp_search(col, strat, lambda c: case_generated(c, col), max_examples=60 if tier == "quick" else 1500, seed=seed * 79 + task["shard"], shrink_budget_s=60)
+                      st.sampled_from(["lines", "file", "import", "cache", "cache_lines", "cache_import", "cache_import", "cache"]))
+    hyp_search(col, strat, lambda c: case_generated(c, col), max_examples=160 if tier == "quick" else 1500, seed=seed * 79 + task["shard"], shrink_budget_s=60)
 
 
 # ------------------------------------------------------------------------------------- dispatch
